@@ -460,7 +460,7 @@ func (a *asset) generateTimelineEntries(repID string, wt wrapTimes, atoMS int) s
 	// The availabilityTimeOffset may reach into following loops, so fold it into the wrap count
 	loopDur := uint64(rep.duration())
 	relStartTime := uint64((wt.startRelMS + atoMS) * rep.MediaTimescale / 1000)
-	if loopDur > 0 && relStartTime >= loopDur {
+	if wt.startRelMS+atoMS >= 0 && loopDur > 0 && relStartTime >= loopDur {
 		wt.startWraps += int(relStartTime / loopDur)
 		relStartTime %= loopDur
 	}
@@ -481,7 +481,7 @@ func (a *asset) generateTimelineEntries(repID string, wt wrapTimes, atoMS int) s
 	}
 
 	relNowTime := uint64((wt.nowRelMS + atoMS) * rep.MediaTimescale / 1000)
-	if loopDur > 0 && relNowTime >= loopDur {
+	if wt.nowRelMS+atoMS >= 0 && loopDur > 0 && relNowTime >= loopDur {
 		wt.nowWraps += int(relNowTime / loopDur)
 		relNowTime %= loopDur
 	}
